@@ -340,8 +340,9 @@ def ids(m):
     return out
 
 
-def satisfied(cases, names, hdr, und):
-    """bitmask of the grid points (outside the mask `und`) at which some case holds"""
+def satisfied(cases, names, hdr, und, scale=None):
+    """bitmask of the grid points (outside the mask `und`) at which some case holds; `scale` (a Fraction) stretches
+    the grid (bounds jobs: the same box and test points at another magnitude)"""
     key = (tuple(hdr["coords"]), hdr["nv"])
     if key not in _GRIDS:
         _GRIDS[key] = grid_points(hdr)
@@ -352,7 +353,7 @@ def satisfied(cases, names, hdr, und):
     for k, p in enumerate(pts):
         if (und >> k) & 1:
             continue
-        env = {names[j]: p[j] for j in range(nv)}
+        env = {names[j]: (p[j] if scale is None else p[j] * scale) for j in range(nv)}
         for c in comp:
             if case_holds(c, env):
                 got |= 1 << k
@@ -419,10 +420,10 @@ def pt_values(hdr, k):
     return [coords[(k // g ** j) % g] / 2 for j in range(nv)]
 
 
-def compare(job, hdr, cases, names, api, returned):
+def compare(job, hdr, cases, names, api, returned, scale=None):
     """-> result dict"""
     try:
-        got = satisfied(cases, names, hdr, job["und"])
+        got = satisfied(cases, names, hdr, job["und"], scale)
     except Unparsable as ex:
         return {"st": "unparsed", "api": api, "why": str(ex), "returned": returned}
     sol = job["sol"]
@@ -500,12 +501,18 @@ def run_job(job, hdr):
             else:
                 out.append(compare(job, hdr, cases, names, "simplify(linear_symbolic)", res2))
     elif use == "bounds":
-        lo = [None if v == NONE else (v // 2 if v % 2 == 0 and job["conv"] == "int" else v / 2) for v in job["bnd"]["lo"]]
-        hi = [None if v == NONE else (v // 2 if v % 2 == 0 and job["conv"] == "int" else v / 2) for v in job["bnd"]["hi"]]
+        # the box at another magnitude: decimal scales, so that the decimal text of a bound is the bound exactly
+        sc = Fraction(job.get("scale", "1"))
+        if sc == 1:
+            lo = [None if v == NONE else (v // 2 if v % 2 == 0 and job["conv"] == "int" else v / 2) for v in job["bnd"]["lo"]]
+            hi = [None if v == NONE else (v // 2 if v % 2 == 0 and job["conv"] == "int" else v / 2) for v in job["bnd"]["hi"]]
+        else:
+            lo = [None if v == NONE else float(Fraction(v, 2) * sc) for v in job["bnd"]["lo"]]
+            hi = [None if v == NONE else float(Fraction(v, 2) * sc) for v in job["bnd"]["hi"]]
         st, res = call(ms.symbolic_bounds, lo, hi, variables=job["vars"])
         if st == "refused" or not isinstance(res, str):
             return [{"st": "refused", "api": "symbolic_bounds", "why": res if st == "refused" else "type"}]
-        out.append(compare(job, hdr, [res], names, "symbolic_bounds", res))
+        out.append(compare(job, hdr, [res], names, "symbolic_bounds", res, scale=None if sc == 1 else sc))
     return out
 
 
@@ -617,8 +624,9 @@ def make_jobs(name, hdr, states, seed, thorough):
             tag, vararg, nm = POS_SCHEMES[(i + seed) % len(POS_SCHEMES)]
             vararg = vararg[:nv] if isinstance(vararg, list) else vararg
             conv = ["int", "float"][(i // len(POS_SCHEMES)) % 2]
-            jobs.append(dict(base, scheme=tag, vars=vararg, names=nm[:nv], bnd=s["p"], conv=conv, prog=s["p"],
-                             text="min=%s max=%s" % (s["p"]["lo"], s["p"]["hi"])))
+            scale = ("1", "1", "1e-10", "10000000000", "1.000000001", "1e-300")[(i // 2 + seed) % 6]
+            jobs.append(dict(base, scheme=tag, vars=vararg, names=nm[:nv], bnd=s["p"], conv=conv, prog=s["p"], scale=scale,
+                             text="(min=%s max=%s)/2 * %s" % (s["p"]["lo"], s["p"]["hi"], scale)))
     return jobs
 
 
